@@ -25,13 +25,14 @@ T1 == {Bin(o, l, r) : o \in BinOps, l \in Q0, r \in Q0}          \* one operator
 T1x == {Bin(o, l, r) : o \in BinOps, l \in T0, r \in T0}         \* one operator with a negated operand (top level only)
 T1n == T1 \cup {Not(t) : t \in T1}
 T2 == {Bin(o, l, r) : o \in BinOps, l \in T1n, r \in T0} \cup {Bin(o, l, r) : o \in BinOps, l \in T0, r \in T1n}
-\* three operators over a single atom: every shape, every ordered triple
+\* three operators over a single atom: every shape, every ordered triple of one operator per precedence level
+LevelOps == {"||", "&&", "~", "==", "<", "juxt"}
 U0 == {A}
-U1 == {Bin(o, l, r) : o \in BinOps, l \in U0, r \in U0}
+U1 == {Bin(o, l, r) : o \in LevelOps, l \in U0, r \in U0}
 U1n == U1 \cup {Not(t) : t \in U1}
-U2 == {Bin(o, l, r) : o \in BinOps, l \in U1n, r \in U0} \cup {Bin(o, l, r) : o \in BinOps, l \in U0, r \in U1n}
-U3 == {Bin(o, l, r) : o \in BinOps, l \in U2, r \in U0} \cup {Bin(o, l, r) : o \in BinOps, l \in U0, r \in U2}
-      \cup {Bin(o, l, r) : o \in BinOps, l \in U1, r \in U1}
+U2 == {Bin(o, l, r) : o \in LevelOps, l \in U1n, r \in U0} \cup {Bin(o, l, r) : o \in LevelOps, l \in U0, r \in U1n}
+U3 == {Bin(o, l, r) : o \in LevelOps, l \in U2, r \in U0} \cup {Bin(o, l, r) : o \in LevelOps, l \in U0, r \in U2}
+      \cup {Bin(o, l, r) : o \in LevelOps, l \in U1, r \in U1}
 \* ---- every atom kind next to every operator
 Rich == {A, S, LongString("ls"), Int("1"), Float("1.5"), RTime("2s"), Bool(TRUE), Bool(FALSE), Prefix("-", Int("1")),
          Prefix("-", A), Not(A), Postfix("%", Int("50")), CallX("f", <<>>), CallX("std.g", <<A>>), CallX("f", <<A, S>>),
